@@ -1905,3 +1905,130 @@ func E2SerialiseEveryCommand(c *core.Ctx, r *core.Report) {
 	r.Count("E2.serialiser-cases", n)
 	r.Floor("E2.serialiser-cases", 7)
 }
+
+// E2BackwardStepKnownKind: stepping back over a record with a fixed length presumes its kind is known.
+func E2BackwardStepKnownKind(c *core.Ctx, r *core.Report) {
+	r.Rule("E2.backward-step-known-kind", "path data is a sequence of records of different lengths, each closed by its command value; the record in front of position i is stepped over with `i - cmdLen(p.d[i-1])`. An index obtained as `i - cmdLen(K)` with a constant command K presumes that record to be a K; when the code afterwards tests the command value at that very index (`p.d[j] == …`), it states that the kind is not known there — the two beliefs contradict each other unless a test `p.d[i-1] == K` encloses the step. With an arc (eight values) in front, four steps back land on its flags value, which equals LineToCmd for a small counter-clockwise arc, and the record is misread as a line (expected count zero on the present tree; the mutant of the thorough tier is the positive example)")
+	p := c.MustPkg("")
+	info := p.TypesInfo
+	steps, tested := 0, 0
+	for _, fd := range core.AllFuncDecls(p) {
+		if fd.Body == nil {
+			continue
+		}
+		// j := base - cmdLen(K)
+		type step struct {
+			obj  types.Object
+			base ast.Expr
+			k    ast.Expr
+			at   *ast.AssignStmt
+		}
+		var found []step
+		var stack []ast.Node
+		guards := map[*ast.AssignStmt][]ast.Expr{}
+		ast.Inspect(fd.Body, func(n ast.Node) bool {
+			if n == nil {
+				stack = stack[:len(stack)-1]
+				return true
+			}
+			stack = append(stack, n)
+			as, ok := n.(*ast.AssignStmt)
+			if !ok || len(as.Lhs) != 1 || len(as.Rhs) != 1 {
+				return true
+			}
+			id, ok := as.Lhs[0].(*ast.Ident)
+			if !ok {
+				return true
+			}
+			var base ast.Expr
+			var cl *ast.CallExpr
+			switch as.Tok {
+			case token.DEFINE, token.ASSIGN:
+				be, ok := core.Unparen(as.Rhs[0]).(*ast.BinaryExpr)
+				if !ok || be.Op != token.SUB {
+					return true
+				}
+				base = be.X
+				cl, _ = core.Unparen(be.Y).(*ast.CallExpr)
+			case token.SUB_ASSIGN:
+				base = as.Lhs[0]
+				cl, _ = core.Unparen(as.Rhs[0]).(*ast.CallExpr)
+			default:
+				return true
+			}
+			if cl == nil || len(cl.Args) != 1 {
+				return true
+			}
+			if f := core.CalleeOf(info, cl); f == nil || f.Name() != "cmdLen" {
+				return true
+			}
+			if tv, ok := info.Types[cl.Args[0]]; !ok || tv.Value == nil {
+				return true
+			}
+			steps++
+			found = append(found, step{core.ObjOf(info, id), base, cl.Args[0], as})
+			for _, g := range stack {
+				if is, ok := g.(*ast.IfStmt); ok {
+					guards[as] = append(guards[as], is.Cond)
+				}
+			}
+			return true
+		})
+		for _, st := range found {
+			// is the command value at the stepped index tested?
+			var test ast.Node
+			ast.Inspect(fd.Body, func(n ast.Node) bool {
+				chk := func(e ast.Expr) bool {
+					ie, ok := core.Unparen(e).(*ast.IndexExpr)
+					if !ok || !core.IsPathDataSel(info, ie.X) {
+						return false
+					}
+					id, ok := core.Unparen(ie.Index).(*ast.Ident)
+					return ok && core.ObjOf(info, id) == st.obj
+				}
+				switch x := n.(type) {
+				case *ast.BinaryExpr:
+					if (x.Op == token.EQL || x.Op == token.NEQ) && x.Pos() > st.at.Pos() && (chk(x.X) || chk(x.Y)) && test == nil {
+						test = x
+					}
+				case *ast.SwitchStmt:
+					if x.Tag != nil && x.Pos() > st.at.Pos() && chk(x.Tag) && test == nil {
+						test = x
+					}
+				}
+				return true
+			})
+			if test == nil {
+				continue
+			}
+			tested++
+			key := fmt.Sprintf("canvas.%s|%s stepped back by cmdLen(%s) and tested", core.FuncName(fd), st.obj.Name(), c.Src(st.k))
+			// an enclosing test that the record in front of base is a K
+			want := c.Src(st.base) + " - 1"
+			guarded := false
+			for _, g := range guards[st.at] {
+				ast.Inspect(g, func(n ast.Node) bool {
+					be, ok := n.(*ast.BinaryExpr)
+					if !ok || be.Op != token.EQL {
+						return true
+					}
+					for _, pair := range [][2]ast.Expr{{be.X, be.Y}, {be.Y, be.X}} {
+						ie, ok := core.Unparen(pair[0]).(*ast.IndexExpr)
+						if ok && core.IsPathDataSel(info, ie.X) && c.Src(ie.Index) == want && c.Src(pair[1]) == c.Src(st.k) {
+							guarded = true
+						}
+					}
+					return true
+				})
+			}
+			if guarded {
+				r.OK("E2.backward-step-known-kind", key, c.Pos(st.at.Pos()), "the step is enclosed by a test of the record's command value")
+			} else {
+				r.Fail("E2.backward-step-known-kind", key, c.Pos(st.at.Pos()), fmt.Sprintf("`%s` presumes the record in front of `%s` to be a %s, yet `%s` tests what is found there: for a longer record (an arc has eight values) the index lands inside it, and the flags value of a small counter-clockwise arc equals LineToCmd", c.Src(st.at), c.Src(st.base), c.Src(st.k), c.Src(test)))
+			}
+		}
+	}
+	r.Count("E2.constant-backward-steps", steps)
+	r.Floor("E2.constant-backward-steps", 3)
+	r.OK("E2.backward-step-known-kind", "canvas|constant backward steps", c.Pos(p.Syntax[0].Pos()), fmt.Sprintf("%d backward steps by a constant command length, %d of them followed by a test of the command value at the new index", steps, tested))
+}
